@@ -198,3 +198,141 @@ Definition bop_bytes (o : bop) : list N :=
   | BU48 u => be_bytes 6 u
   | BSlice l => l
   end.
+
+(* ================================================================== second extension (C13b) *)
+(* ------------------------------------------------------------------ writers over an io.Writer that may fail *)
+(* EBSPWriter / Writer keep the first error (`if w.err != nil { return }` at the top of Write, Flush) and
+   return from the middle of the drain loop when the underlying Write fails: w.n is then NOT decremented for
+   the failed byte and `w.v &= Mask(8)` is skipped.
+   xrem = None: the io.Writer never fails; Some r: it accepts r more one-byte writes, then every Write fails
+   (harness type failAt).  The writers only ever issue one-byte writes. *)
+Record wx := mkWX { xs : wstate; xerr : bool; xrem : option N }.
+
+Definition xinit (cap : option N) : wx := mkWX winit false cap.
+Definition xout (s : wx) : list N := wout (xs s).
+Definition room (rem : option N) : bool := match rem with None => true | Some r => 0 <? r end.
+Definition take (rem : option N) : option N := match rem with None => None | Some r => Some (r - 1) end.
+
+(* the loop body up to (excluding) `w.n -= 8`: (ok, nr0, out, rem) *)
+Definition emit_byte_x (esc : bool) (b nr0 : N) (out : list N) (rem : option N)
+  : bool * N * list N * option N :=
+  if esc && (nr0 =? 2) && (b <=? 3) then
+    if room rem then
+      let out1 := 3 :: out in
+      let rem1 := take rem in
+      if room rem1 then (true, (if b =? 0 then 1 else 0), b :: out1, take rem1)
+      else (false, 0, out1, rem1)
+    else (false, nr0, out, rem)
+  else if room rem then (true, (if b =? 0 then nr0 + 1 else 0), b :: out, take rem)
+  else (false, nr0, out, rem).
+
+Fixpoint drain_x (esc : bool) (fuel : nat) (V T nr0 : N) (out : list N) (rem : option N)
+  : bool * N * N * list N * option N :=
+  match fuel with
+  | O => (true, T, nr0, out, rem)
+  | S f =>
+      if 8 <=? T then
+        let b := N.land (N.shiftr V (T - 8)) 255 in
+        let '(ok, z, o, r) := emit_byte_x esc b nr0 out rem in
+        if ok then drain_x esc f V (T - 8) z o r else (false, T, z, o, r)
+      else (true, T, nr0, out, rem)
+  end.
+
+(* Write(bits, n), any n >= 0 (Go: shifts by >= 64 give 0, Mask(n) is all ones for n >= 64) *)
+Definition write_x (esc : bool) (s : wx) (bits n : N) : wx :=
+  if xerr s then s
+  else
+    let V := N.lor (u64 (N.shiftl (wv (xs s)) n)) (N.land bits (N.ones n)) in
+    let T := wn (xs s) + n in
+    let '(ok, T', z, o, r) := drain_x esc (S (N.to_nat (T / 8))) V T (wnr0 (xs s)) (wrev (xs s)) (xrem s) in
+    if ok then mkWX (mkW T' (N.land V 255) z o) false r
+    else mkWX (mkW T' V z o) true r.
+
+(* WriteExpGolomb after repo commit 9ec0951: values above 2^57 - 2 set ErrExpGolombRange and write nothing *)
+Definition max_ue : N := 144115188075855870.
+
+Definition write_ue_x (s : wx) (nr : N) : wx :=
+  if max_ue <? nr then (if xerr s then s else mkWX (xs s) true (xrem s))
+  else
+    let '(p, delta) := ue_loop 64 nr 0 0 0 in
+    let s1 := write_x true s 1 (p + 1) in
+    if 0 <? p then write_x true s1 delta p else s1.
+
+Fixpoint write_sei_value_x_fuel (fuel : nat) (s : wx) (val : N) : wx :=
+  match fuel with
+  | O => s
+  | S f => if 255 <=? val then write_sei_value_x_fuel f (write_x true s 255 8) (val - 255)
+           else write_x true s val 8
+  end.
+Definition write_sei_value_x (s : wx) (val : N) : wx :=
+  write_sei_value_x_fuel (S (N.to_nat (val / 255))) s val.
+
+(* after an error w.n may be >= 8: 8 - w.n is then negative in Go, but Write returns at once *)
+Definition stuff_zeros_x (s : wx) : wx :=
+  if 0 <? wn (xs s) then write_x true s 0 (8 - wn (xs s)) else s.
+Definition write_trailing_x (s : wx) : wx := stuff_zeros_x (write_x true s 1 1).
+
+(* Writer.Flush: `if w.err != nil { return }; if w.n != 0 { binary.Write(w.wr, BigEndian, uint8(b)) }` *)
+Definition flush_x (s : wx) : wx :=
+  if xerr s then s
+  else if wn (xs s) =? 0 then s
+  else if room (xrem s)
+       then mkWX (mkW (wn (xs s)) (wv (xs s)) (wnr0 (xs s))
+                      (N.land (N.shiftl (wv (xs s)) (8 - wn (xs s))) 255 :: wrev (xs s)))
+                 false (take (xrem s))
+       else mkWX (xs s) true (xrem s).
+
+Definition wxstep (s : wx) (o : wop) : wx :=
+  match o with
+  | WBits v w => write_x true s v w
+  | WFlag b => write_x true s (if b then 1 else 0) 1
+  | WUe v => write_ue_x s v
+  | WSe k => write_ue_x s (se_to_ue k)
+  | WSei v => write_sei_value_x s v
+  | WTrail => write_trailing_x s
+  | WStuff => stuff_zeros_x s
+  | WFlush => s
+  end.
+
+Definition wxstep_plain (s : wx) (o : wop) : wx :=
+  match o with
+  | WBits v w => write_x false s v w
+  | WFlag b => write_x false s (if b then 1 else 0) 1
+  | WFlush => flush_x s
+  | _ => s
+  end.
+
+Definition run_wx (cap : option N) (ops : list wop) : wx := fold_left wxstep ops (xinit cap).
+Definition run_wx_plain (cap : option N) (ops : list wop) : wx := fold_left wxstep_plain ops (xinit cap).
+
+(* ------------------------------------------------------------------ readers at the integer boundaries *)
+(* ReadSignedGolomb with Go's wrap: `int((unsignedGolomb + 1) / 2)` where the + 1 is a uint addition.
+   C13Model.read_se computes (u + 1) / 2 without the wrap: the two differ exactly at u = 2^64 - 1
+   (64 zero bits, a one, 64 zero bits), where Go returns 0. *)
+Definition read_se64 (s : rstate) : Z * rstate :=
+  let '(u, s1) := read_ue s in
+  if rerr s1 then (0%Z, s1)
+  else if u mod 2 =? 1 then (Z.of_N (u64 (u + 1) / 2), s1)
+  else ((- Z.of_N (u / 2))%Z, s1).
+
+(* int(x) of a uint *)
+Definition to_int64 (v : N) : Z :=
+  if v <? 9223372036854775808 then Z.of_N v else (Z.of_N v - 18446744073709551616)%Z.
+
+(* the arithmetic of Reader.ReadSigned: nr := int(v); if nr >> (n-1) == 1 { nr |= -1 << n }.
+   -1 << n is 0 in Go for n >= 64; the test cannot succeed then (nr >> 63 is 0 or -1). *)
+Definition sext64 (v n : N) : Z :=
+  let nr := to_int64 v in
+  if (Z.shiftr nr (Z.of_N (n - 1)) =? 1)%Z then Z.lor nr (Z.shiftl (-1) (Z.of_N n)) else nr.
+
+(* None: run-time panic (n = 0 makes `nr >> (n-1)` a negative shift amount) *)
+Definition read_signed64 (s : rstate) (n : N) : option (Z * rstate) :=
+  let '(v, s') := read_plain s n in
+  if n =? 0 then None else Some (sext64 v n, s').
+
+(* zero value of a reader op: what every read returns once the error is set *)
+Definition rzero (o : rop) : rval :=
+  match o with
+  | RBits _ => VN 0 | RFlag => VB false | RUe => VN 0 | RSe => VZ 0%Z
+  | RBytes _ => VBytes [] | RMore => VMore None
+  end.
